@@ -21,7 +21,7 @@ def run(tier, opts):
     if opts.get("replay"):
         cases = [json.load(open(opts["replay"]))["case"]]
     else:
-        cfg = common.gen_cfg("MC_Table.cfg", {"MaxHeight = 2": f"MaxHeight = {maxh}", "MaxCols = 3": f"MaxCols = {maxc}"}, tier)
+        cfg = common.gen_cfg("MC_Table.cfg", {"MaxHeight = 2": f"MaxHeight = {maxh}", "MaxCols = 3": f"MaxCols = {maxc}", "WideCols = {17}": "WideCols = {17}" if tier == "quick" else "WideCols = {16, 17, 33}"}, tier)
         res = vf.tlc("MC_Table", cfg=cfg, workers=8, timeout=6000, heap="24g")
         ck.add_tlc(res, "MC_Table")
         if not ck.require_tlc_ok(res, "MC_Table"):
